@@ -1,6 +1,7 @@
 import Mp4ff.Model.Sei
 import Mp4ff.Lemmas.C17Framing
 import Mp4ff.Lemmas.C17Typed
+import Mp4ff.Expect.Transcribed
 /-!
 # C17 — SEI messages survive write/parse round trips
 (Property theorems are added from `Mp4ff/Lemmas/C17*.lean` as they are completed.)
@@ -72,5 +73,10 @@ example : (⟨17, 300, 0, 0, 59, true, false, false, true, false, false, true, f
 example : MsgOK ⟨70000, [0, 0, 1, 0, 0]⟩ := by simp [MsgOK, IsBytes]
 example : isSEINalu .avc [0x66] = true := by decide
 example : isSEINalu .hevc [0x50, 0x01] = true := by decide
+
+/-- the Go functions the models of this property transcribe (committed table `spec/transcribed.json`, checked against
+    the current source by the extractor on every run) all still exist -/
+theorem model_sources_exist :
+    (["Bits.lean", "Sei.lean"] : List String).all Mp4ff.Expect.presentFor = true := by decide +kernel
 
 end Mp4ff.Sei.C17
